@@ -182,20 +182,22 @@ PROPS = {
             # regression corpus first: the witness shapes of the defects F1a / F1b of the pinned tree (see pending_fixes/README-C12.md)
             dict(mode="det", name="rwlock_reg", quick=200, thorough=4000, nontrivial=r" sync\.poison\.failed@\d+ load 0 0 1 "),
             dict(mode="det", name="rwlock", quick=800, thorough=20000, nontrivial=r" sync\.(rwlock|mutex)\.to_wake@\d+ q\.push "),
+            # coroutines and threads on the real runtime, 1-2 coroutines cancelled while blocked in read()/write() or before they give guards back
+            dict(mode="live", name="rwlock_live", quick=360, thorough=6000, nontrivial=r" ret - rwlock\.(read|write|drop_r) 3 "),
         ],
         trusted_base=TB_COMMON + [
-            "ThreadPark is replaced by the controller's virtual token in det mode (the real parking_lot implementation is not exercised there)",
+            "ThreadPark is replaced by the controller's virtual token in det mode (the real parking_lot implementation is not exercised there); in live mode the blockers' park/unpark produce no events and are silent model steps of the replay",
             "crossbeam SegQueue (gate waiter queue) and may_queue::mpsc::Queue (rlock waiter queue) are atomic FIFOs at this layer",
-            "the non-atomic reader count *rlock is folded into the adjacent atomic steps; justified by theorem rwlock_rlock_sections_exclusive (rlock = the C05 Mutex model as a component)",
+            "the reader count *rlock is a verif::Counted under cfg(may_verif): every comparison and += / -= is one event and one model step (order and values compared); that the sections touching it exclude each other is theorem rwlock_rlock_sections_exclusive (rlock = the C05 Mutex model as a component)",
             "rustc unwinding: a guard's drop runs exactly once; thread::panicking() is the caller-chosen flag of Env.dropW",
         ],
         assumptions=[
-            "fair scheduling for the no-stranded-waiter theorem (quiescence form)",
-            "det mode exercises thread actors only: the cancel paths (Env.abort) are in the model and the theorems but are not matched by traces here (live mode / coroutines: C09)",
-            "rlock is never poisoned in the fixed code (no panic is possible while it is held: rwlock_reader_count_never_underflows, rwlock_pop_never_empty), so its poison flag always reads 0 in the model",
+            "fair scheduling for the no-stranded theorem (quiescence form)",
+            "live mode: cancel() is not delivered while the target is inside a guard drop (there Mutex::lock's b_ignore path can lose the wake-up: defect of the Mutex/Park layer, reported to C05/C11); cancels that arrive before the drop starts are covered",
+            "rlock is never poisoned in the fixed code (no panic is possible while it is held: rwlock_reader_count_never_underflows, rwlock_pop_never_empty, rwlock_drop_always_completes), so its poison flag always reads 0 in the model",
             "visibility of data written under the lock follows from SC, which is assumed",
         ],
-        rule="det mode: rwlock_reg = 8 fixed witness shapes of F1a/F1b (poisoned lock, try_read + drop of the guard inside Poisoned; simultaneous write/try_write/read callers on a free poisoned lock) under seeded schedules; rwlock = 2-5 threads x 1-7 read/write/try_read/try_write/is_poisoned/drop operations incl. panic while holding the write guard and guards recovered from PoisonError; non-trivial = a poisoned guard was handed out (reg) / at least one waiter registered on the gate or on rlock (rwlock); distinct = SHA-1 of the canonical trace",
+        rule="det mode: rwlock_reg = 8 fixed witness shapes of F1a/F1b (poisoned lock, try_read + drop of the guard inside Poisoned; simultaneous write/try_write/read callers on a free poisoned lock) under seeded schedules; rwlock = 2-5 threads x 1-7 read/write/try_read/try_write/is_poisoned/drop operations incl. panic while holding the write guard and guards recovered from PoisonError; live mode: rwlock_live = 2-5 coroutines and threads (plus main's final try_write/try_read probe) on the real runtime with 1-3 workers and seeded perturbation, 0-2 coroutines cancelled at seeded moments (blocked first reader behind a writer; cancelled holder giving read guards back under rlock contention; generated mixes); non-trivial = a poisoned guard was handed out (reg) / a waiter registered on the gate or on rlock (rwlock) / a call or drop was left by the cancel panic (live); distinct = SHA-1 of the canonical trace",
     ),
     "C09": dict(
         lean_props=["MayVerif.Props.C09"],
